@@ -89,7 +89,7 @@ def recipe(c: Check):
                                    what="C11_holds fails on %d observed visitor-listener trace(s)" % vcnt.get("VMON"),
                                    case="see mismatches of C11_holds in the visitor case shard"))
         d3 = st3.get("distribution", {})
-        for k in ("listener-full", "stcp-held", "stcp-running", "fate1", "fate2"):
+        for k in ("listener-full", "stcp-held", "stcp-running", "closing-window", "fate1", "fate2"):
             if d3.get(k, 0) <= 0:
                 c.broken.append(dict(kind="coverage", name="visitor driver never reached %s" % k, detail=str(d3)))
     return c.finish(
